@@ -316,6 +316,12 @@ def _area_classes(record: Any) -> list:
     cands = record.get_candidate_clusters()
     if any((one < two) == (two < one) for i, one in enumerate(cands) for two in cands[i + 1:]):
         classes.append("unordered_candidates")
+    for region in record.get_regions():
+        members = region.get_unique_protoclusters()
+        if any((one < two) == (two < one) for i, one in enumerate(members) for two in members[i + 1:]):
+            label = "unordered_in_crossing_region" if region.crosses_origin() else "unordered_in_plain_region"
+            if label not in classes:
+                classes.append(label)
     classes.append(f"regions_{min(len(record.get_regions()), 3)}")
     if any(region.crosses_origin() for region in record.get_regions()):
         classes.append("region_crosses_origin")
